@@ -895,7 +895,10 @@ def _propagate(ctx, f, res: Result, selfp: T, tpar: T, mode: str):
     setm = [e for e in res.of_kind("setattr")
             if e.data["base"] is selfp and e.data["name"] == M]
     ok3 = False
+    every = []
+    setm = [e for e in setm if not tm.is_const(e.live, False)]
     for e in setm:
+        ok3 = False
         v = e.data["value"]
         # a list that is grown in a local variable and stored afterwards:
         # what it started as
@@ -915,10 +918,16 @@ def _propagate(ctx, f, res: Result, selfp: T, tpar: T, mode: str):
         if w.op == "sub" and w.args[1] is T("slice", tm.NONE, const(1),
                                            tm.NONE):
             ok3 = True
-    ctx.ob("C08.5", f, ok3,
+        every.append((ok3, e))
+    # on *every* path of this mode (also for a single pose, an empty tail)
+    ok3 = bool(every) and all(k for k, _ in every)
+    ctx.ob("C08.5", [e for k, e in every if not k][0] if every and not ok3
+           else f, ok3,
            "transform[propagate]: the first pose is kept" if ok3 else
            "transform[propagate]: new pose list does not start with the "
-           "original first pose", key="C08.5:transform:propagate:first")
+           "original first pose on every path of this mode (e.g. a branch "
+           "for short trajectories that right-multiplies every pose)",
+           key="C08.5:transform:propagate:first")
     # accumulation new[k+1] = new[k] . D_k, k = 0..n-2 in order
     ok4 = None
     why4 = "accumulation new[k+1] = new[k].D_k not recognised"
